@@ -104,6 +104,14 @@ Proof.
 Qed.
 Print Assumptions err_rec_pointer_stable_refuted.
 
+(* what does hold of err_rec_pointer_stable: with at most five threads (five records: 5*100/8 < 75) the arena is never
+   enlarged, and in every schedule of arbitrary programs no record pointer is dereferenced after its arena was freed *)
+Theorem C16_err_rec_pointer_stable_partial : forall d0 progs sched,
+  (length progs <= 5)%nat ->
+  forall t e, In (t, e) (snd (run sched (init d0 progs))) -> is_dangling e = false.
+Proof. exact err_rec_pointer_stable_small. Qed.
+Print Assumptions C16_err_rec_pointer_stable_partial.
+
 (* canon_cache_single_ref - concurrent first prints of one shared value take exactly one dictionary reference, so
    that freeing the tree once gives everything back - is FALSE of the model that follows the code
    (plugins_types/bits.c:419-430 and the same code in binary.c:394, date_and_time.c:286, ipv4_address.c:299,
